@@ -41,11 +41,11 @@ Proof. apply find_first. Qed.
 Lemma search_none ds k : search fs ds k = None -> forall y, In y (candidates ds k) -> isfile fs y = false.
 Proof. apply find_none. Qed.
 Lemma search_angle ds name this :
-  search fs ds (name, this, true) = find (isfile fs) (map (fun d => d ++ name) ds).
+  search fs ds (name, this, true) = find (isfile fs) (map (fun d => norm (d ++ name)) ds).
 Proof. reflexivity. Qed.
 Lemma search_quote ds name this :
   search fs ds (name, this, false) =
-  if isfile fs (this ++ name) then Some (this ++ name) else search fs ds (name, this, true).
+  if isfile fs (norm (this ++ name)) then Some (norm (this ++ name)) else search fs ds (name, this, true).
 Proof. reflexivity. Qed.
 
 (* ---------- the memo is transparent ---------- *)
